@@ -8,4 +8,5 @@ CONSTANTS
   Qs = {2, 3, 4}
   MaxLen = 4
   ExhLen = 2
+  SrcMode = "concrete"
 INVARIANTS CaseSound Emit EmitGates
